@@ -299,7 +299,19 @@ def cases_of(e: ast.AST, conds=None) -> List[Tuple[List[Tuple[ast.AST, bool]], L
 
 
 def const_str(e: ast.AST) -> Optional[str]:
-    return e.value if isinstance(e, ast.Constant) and isinstance(e.value, str) else None
+    if isinstance(e, ast.Constant) and isinstance(e.value, str):
+        return e.value
+    # ' ' * 2  /  2 * ' '  /  'a' 'b' written as 'a' + 'b'
+    if isinstance(e, ast.BinOp) and isinstance(e.op, ast.Mult):
+        for a, b in ((e.left, e.right), (e.right, e.left)):
+            if isinstance(a, ast.Constant) and isinstance(a.value, str) and isinstance(b, ast.Constant) \
+                    and isinstance(b.value, int) and not isinstance(b.value, bool) and 0 <= b.value <= 64:
+                return a.value * b.value
+    if isinstance(e, ast.BinOp) and isinstance(e.op, ast.Add):
+        l, r = const_str(e.left), const_str(e.right)
+        if l is not None and r is not None:
+            return l + r
+    return None
 
 
 def root_name(e: ast.AST) -> Optional[str]:
@@ -828,6 +840,12 @@ class Accumulator:
         if len(names) == 1:
             self.name, self.sep = next(iter(names))
             self.foreign = others
+            # an accumulator that does not start empty / from a plain text (`lines = [f(x) for x in xs]`) is not understood
+            for n in walk_no_nested(func.node):
+                if isinstance(n, ast.Assign) and len(n.targets) == 1 and isinstance(n.targets[0], ast.Name) and n.targets[0].id == self.name \
+                        and (isinstance(n.value, (ast.ListComp, ast.GeneratorExp)) or (isinstance(n.value, ast.List) and n.value.elts)
+                             or (isinstance(n.value, ast.Call) and isinstance(n.value.func, ast.Name) and n.value.func.id in ('list', 'map', 'sorted') and n.value.args)):
+                    self.problem = f"the returned collection `{self.name}` starts from `{src(n.value)[:60]}`, not from an empty list / text"
         else:
             self.problem = "the function does not return one accumulator variable on every path"
 
